@@ -156,6 +156,51 @@ func genC03(g *Gen) {
 				[]string{"size", "peek"}, pl[0], pl[1], pl[2]))
 		}
 	}
+	// (1c) big variadic Push / Merge / Meld batches onto a smaller non-empty heap, and reuse after Clear of a big
+	// heap; sizes: standard ones and thresholds a change introduced into the source
+	batch := []int{70, 300, 1100}
+	if g.Thorough() {
+		batch = append(batch, 2100, 4200)
+	}
+	for _, s := range extraSizes() {
+		if s <= 100000 {
+			batch = append(batch, s, s+1, 2*s+1)
+		}
+	}
+	for _, comp := range []string{"lt", "gt"} {
+		for bi, b := range batch {
+			if !g.Mine() {
+				continue
+			}
+			vals := make([]int, b)
+			for i := range vals {
+				vals[i] = (i*7919 + bi) % 1009
+			}
+			drain := func(k int) []string {
+				var o []string
+				for i := 0; i < k; i++ {
+					o = append(o, "pop")
+					if i%97 == 0 {
+						o = append(o, "size", "peek")
+					}
+				}
+				return o
+			}
+			small := []string{"push 500", "push 3", "push 999", "push 3", "push 77"}
+			for _, verb := range []string{"pushn", "merge", "meld"} {
+				ops := append([]string{}, small...)
+				ops = append(ops, verb+" "+ints(vals), "size", "peek")
+				ops = append(ops, drain(b+9)...)
+				g.Emit("heap", []string{comp}, ops)
+			}
+			// fill big, Clear, reuse, remove
+			ops := []string{"pushn " + ints(vals), "size", "clear", "size", "push 5", "push 3", "push 9", "size", "pop", "size", "peek",
+				"delete 9", "size", "peek", "pop", "pop", "size"}
+			g.Emit("heap", []string{comp}, ops)
+			ops = []string{"pushn " + ints(vals), "clear", "push 5", "push 3", "push 9", "delete 3", "size", "peek", "values", "pop", "pop", "pop", "size"}
+			g.Emit("heap", []string{comp}, ops)
+		}
+	}
 	// (2) FromSlice / Sort on all slices up to length 6 (quick) / 7 (thorough) over 4 values
 	sl := 6
 	if g.Thorough() {
